@@ -600,23 +600,34 @@ def deep_jobs(tier, props, module):
 
         all5 = ["".join(t) for t in itertools.product("rw", repeat=5)] + ["rirrr", "wrirr", "rwiwr", "rriwr", "wwRrw", "wRwrr", "rwRwr", "wwRww", "iiRrr", "iRrwr"]
         plan = [((0, 0, 2), all5 + ["rrrrrr", "rwrrwr", "wrrwrr"]), ((1, 0, 2), ["rrrrr", "wrrwr", "rwrwr"]), ((0, 1, 2), ["rwrrr", "rrrwr"]), ((0, 0, 4), ["rrrrrr", "rwrrwr"]), ((0, 0, 3), ["rrrrr"])]
+    core = set()
+    if tier != "quick":
+        core = {j["label"] for j in deep_jobs("quick", props, module)}
     for (ib, bb, ways), pats in plan:
         for kind in ("wb", "wt"):
             for repl in ("lru", "plru"):
                 if repl == "plru" and ways & (ways - 1):
                     continue
                 for pat in pats:
+                    label = "deep-%s-%s-i%db%dw%d-%s" % (kind, repl, ib, bb, ways, pat)
+                    extra = tier != "quick" and label not in core
                     out.append(
                         {
-                            "label": "deep-%s-%s-i%db%dw%d-%s" % (kind, repl, ib, bb, ways, pat),
+                            "label": label,
                             "module": module,
                             "harness": "deep",
                             "args": {"kind": kind, "repl": repl, "ib": ib, "bb": bb, "ways": ways, "ops": pat, "props": sorted(props)},
-                            "cost": 30 * ways * len(pat),
+                            "cost": (30 * ways * len(pat)) if not extra else 4,
                             "validate_every": 5,
                             "timeout_ms": 20000,
+                            # thorough tier: the patterns beyond the quick plan are best effort (started
+                            # while the tier's budget lasts; what was not reached is in the evidence)
+                            "optional": extra,
                         }
                     )
+    if tier != "quick":
+        have = {j["label"] for j in out}
+        out += [j for j in deep_jobs("quick", props, module) if j["label"] not in have]
     return out
 
 
@@ -741,16 +752,18 @@ def history_jobs(tier, props, module):
                         continue
                     if not any(x.startswith("w") for x in sq):
                         continue
+                    best_effort = tier != "quick" and i % 10 != (ib + bb + ways) % 10
                     out.append(
                         {
                             "label": "hist-%s-%s-i%db%dw%d-%s" % (kind, repl, ib, bb, ways, ".".join(sq)),
                             "module": module,
                             "harness": "history",
                             "args": {"kind": kind, "repl": repl, "ib": ib, "bb": bb, "ways": ways, "ops": [list(HIST_OPS[x]) for x in sq], "props": sorted(props)},
-                            "cost": 5,
+                            "cost": 5 if not best_effort else 3,
                             "validate_every": 7,
                             "timeout_ms": 20000,
                             "cut_on_undecided": True,
+                            "optional": best_effort,
                         }
                     )
     return out
